@@ -59,8 +59,10 @@ PROPS = {
     "C04": {
         "theorems": ["MRL.C04.spec_next_mono", "MRL.C04.spec_append_fresh", "MRL.C04.spec_run_next_mono",
                      "MRL.C04.spec_below_preserved", "MRL.C04.C04_model_next_mono", "MRL.C04.C04_model_run_next_mono",
-                     "MRL.C04.C04_model_append_fresh"],
+                     "MRL.C04.C04_model_append_fresh",
+                     "MRL.C04R.C04_restart_next", "MRL.C04R.C04_restart_append_fresh", "MRL.C04R.C04_reach_next_mono"],
         "examples": 3,
+        "modules": ["MRL.Props.C04", "MRL.Props.C04Restart"],
         "kinds": "ORS",
         "campaigns": {"quick": [("ops", 16, 110), ("crash", 8, 50)], "thorough": [("ops", 200, 200), ("crash-policies", 100, 100)]},
         "rule": "ops and crash campaigns; oracle: within one incarnation of a queue every append returns positions >= the previous next "
@@ -83,9 +85,10 @@ PROPS = {
     },
     "C06": {
         "theorems": ["MRL.C06.filesOk_step", "MRL.C06.filesOk_run", "MRL.C06.C06_reclaim", "MRL.C06.C06_truncate", "MRL.C06.C06_delete",
-                     "MRL.C06.C06_open", "MRL.C06.no_premature_release", "MRL.C17.files_accounted"],
+                     "MRL.C06.C06_open", "MRL.C06.no_premature_release", "MRL.C17.files_accounted",
+                     "MRL.C06R.filesOk_reach", "MRL.C06R.C06_reach_open", "MRL.C06R.C06_reach_reclaim"],
         "examples": 2,
-        "modules": ["MRL.Props.C06", "MRL.Props.C17"],
+        "modules": ["MRL.Props.C06", "MRL.Props.C17", "MRL.Props.C06Restart"],
         "kinds": "FDE",
         "campaigns": {"quick": [("ops", 24, 110)], "thorough": [("ops", 300, 220), ("policy-ops", 100, 200)]},
         "rule": "ops campaign; after every truncate/delete/open: the directory listing is a contiguous run ending at the file being written, no "
@@ -105,12 +108,14 @@ PROPS = {
         "assumptions": ["crc32 is an uninterpreted function in the proofs; B <= 65542 for the 2-byte length field"],
     },
     "C08": {
-        "theorems": ["MRL.C08.recover_sorted", "MRL.C08.recover_sorted'", "MRL.C08.replay_records_subset", "MRL.C08.replay_is_fold",
+        "theorems": ["MRL.C08G.C08_genuine_entries", "MRL.C08G.C08_genuine_records", "MRL.C08G.genuine_location",
+                     "MRL.C08G.negative_example", "MRL.C08G.negative_violates",
+                     "MRL.C08.recover_sorted", "MRL.C08.recover_sorted'", "MRL.C08.replay_records_subset", "MRL.C08.replay_is_fold",
                      "MRL.C08.recover_records_subset", "MRL.C12.assemble_whole_entry"],
-        "examples": 3,
-        "modules": ["MRL.Props.C08", "MRL.Props.C12"],
-        "kinds": "ODS",
-        "campaigns": {"quick": [("damage", 16, 70)], "thorough": [("damage", 200, 120), ("damage-aimed", 60, 100)]},
+        "examples": 5,
+        "modules": ["MRL.Props.C08", "MRL.Props.C12", "MRL.Props.C08Genuine"],
+        "kinds": "ODSN",
+        "campaigns": {"quick": [("damage", 16, 70), ("bytes", 12, 120)], "thorough": [("damage", 200, 120), ("damage-aimed", 60, 100), ("bytes", 150, 250)]},
         "rule": "damage campaign: final image of a history (with delete/re-create, GC) + 10-20 damage variants each: aimed at crc/payload of "
                 "one traced frame, at a length or type byte, zero/garbage ranges up to 3 blocks, transposed blocks, overwritten files; oracle "
                 "(in-place variants): every recovered record equals (queue, position, payload) of some append, positions strictly increase",
@@ -121,8 +126,8 @@ PROPS = {
                      "MRL.C12.assemble_whole_entry"],
         "examples": 2,
         "modules": ["MRL.Props.C09", "MRL.Props.C12"],
-        "kinds": "ODS",
-        "campaigns": {"quick": [("damage-aimed", 16, 70)], "thorough": [("damage-aimed", 240, 120)]},
+        "kinds": "ODSN",
+        "campaigns": {"quick": [("damage-aimed", 16, 70), ("bytes", 12, 120)], "thorough": [("damage-aimed", 240, 120), ("bytes", 150, 250)]},
         "rule": "aimed damage: a traced frame still on disk, alteration (bit flip / garbage / inverted byte) confined to its checksum or payload "
                 "bytes; oracle: open succeeds and every retained record of the specification that does not belong to the append call that "
                 "wrote the frame is recovered with the same position and payload",
@@ -155,18 +160,22 @@ PROPS = {
         "assumptions": ["ErrorKind::UnexpectedEof is excluded: read_exact's short-file signal is handled by design"],
     },
     "C12": {
-        "theorems": ["MRL.C12.replay_batch_suffix", "MRL.C12.batch_suffix_fresh", "MRL.C12.batch_all_or_nothing",
+        "theorems": ["MRL.C12C.C12_crash", "MRL.C12C.C12_damage", "MRL.C12C.allOrSuffix_of_replay",
+                     "MRL.C12.replay_batch_suffix", "MRL.C12.batch_suffix_fresh", "MRL.C12.batch_all_or_nothing",
                      "MRL.C12.assemble_whole_entry"],
-        "examples": 4,
-        "kinds": "ODS",
-        "campaigns": {"quick": [("crash", 10, 60), ("damage", 10, 70)], "thorough": [("crash-policies", 150, 110), ("damage", 150, 110)]},
+        "examples": 5,
+        "modules": ["MRL.Props.C12", "MRL.Props.C12Compose"],
+        "kinds": "ODSN",
+        "campaigns": {"quick": [("crash", 10, 60), ("damage", 10, 70), ("bytes", 12, 120)], "thorough": [("crash-policies", 150, 110), ("damage", 150, 110), ("bytes", 150, 250)]},
         "rule": "crash and damage campaigns with batches of 2-6 records sized to span blocks and files; oracle: for every batch whose queue "
                 "incarnation is current, the recovered records of the batch are a suffix of it (false* true*)",
         "assumptions": ["damage that copies valid WAL content is finding F5"],
     },
     "C13": {
-        "theorems": ["MRL.C13.C13_no_trace", "MRL.C13.C13_disk_untouched", "MRL.C13.C13_zero_bytes"],
+        "theorems": ["MRL.C13.C13_no_trace", "MRL.C13.C13_disk_untouched", "MRL.C13.C13_zero_bytes",
+                     "MRL.C13R.C13_state_unchanged", "MRL.C13R.C13_restart_unaffected"],
         "examples": 1,
+        "modules": ["MRL.Props.C13", "MRL.Props.C13Restart"],
         "kinds": "RESFUDO",
         "campaigns": {"quick": [("ops", 24, 110)], "thorough": [("ops", 240, 200), ("policy-ops", 120, 200)]},
         "rule": "random histories (cursor-relative sizes) with every rejected/no-op call shape inserted at random points; non-trivial = rolled a "
@@ -176,8 +185,10 @@ PROPS = {
     },
     "C14": {
         "theorems": ["MRL.C14.C14_policy_irrelevant", "MRL.C14.C14_history", "MRL.C14.step_keeps_policy", "MRL.C14.C14_same_image",
-                     "MRL.C14.C14_history_same_image", "MRL.C14.same_image_literal_false"],
+                     "MRL.C14.C14_history_same_image", "MRL.C14.same_image_literal_false",
+                     "MRL.C14R.recover_policy_irrelevant", "MRL.C14R.C14_restart"],
         "examples": 2,
+        "modules": ["MRL.Props.C14", "MRL.Props.C14Restart"],
         "kinds": "ORESFUG",
         "campaigns": {"quick": [("lockstep", 6, 70)], "thorough": [("lockstep", 60, 150), ("policy-ops", 100, 150)]},
         "rule": "one generated history (with persist calls and restarts) replayed under all seven policies in lock-step; oracle: identical "
@@ -196,8 +207,10 @@ PROPS = {
     },
     "C16": {
         "theorems": ["MRL.C16.C16_used_exact", "MRL.C16.C16_used_split", "MRL.C16.C16_used_ge", "MRL.C16.C16_used_le",
-                     "MRL.C16.C16_truncate_drop", "MRL.C16.C16_truncate_noop", "MRL.C16.C16_baseline"],
+                     "MRL.C16.C16_truncate_drop", "MRL.C16.C16_truncate_noop", "MRL.C16.C16_baseline",
+                     "MRL.C16R.C16_restart_queue", "MRL.C16R.C16_restart_used"],
         "examples": 3,
+        "modules": ["MRL.Props.C16", "MRL.Props.C16Restart"],
         "kinds": "US",
         "campaigns": {"quick": [("ops", 24, 110)], "thorough": [("ops", 300, 220)]},
         "rule": "ops campaign; after every call: names + payload <= memory_used_bytes <= names + payload + META x records (META measured on the "
@@ -221,8 +234,10 @@ PROPS = {
     },
     "C18": {
         "theorems": ["MRL.C18.spec_other_untouched", "MRL.C18.spec_outcome_local", "MRL.C18.C18_spec_projection",
-                     "MRL.C18.C18_model_projection", "MRL.C18.C18_model_projection_filter"],
+                     "MRL.C18.C18_model_projection", "MRL.C18.C18_model_projection_filter",
+                     "MRL.C18R.C18_restart_view", "MRL.C18R.C18_restart_projection"],
         "examples": 2,
+        "modules": ["MRL.Props.C18", "MRL.Props.C18Restart"],
         "kinds": "ORSG",
         "campaigns": {"quick": [("projection", 8, 70)], "thorough": [("projection", 120, 160), ("crash", 40, 80)]},
         "rule": "a history over 2-4 queues and, for each queue, its projection (calls addressed to it, restarts and persists kept) run on the "
